@@ -218,6 +218,62 @@ def r_interval_ops(rule, root=None):
         if ok and ps:
             rule.ok("WGSL %s: decided only by an lhs that is exactly zero / excludes zero, else the hull with Both" % name, file=IOPS, line=fn["ln"])
 
+    # compare: the exact answer 0 only for two equal single values; -1 / +1 only under strict separation
+    ps, fn = _paths(rule, d, "op_compare")
+    if ps is not None:
+        ok = True
+        for conds, r, _p in ps:
+            if r == W.NAN:
+                continue
+            if r == ("(-1.0)", "(-1.0)"):
+                good = "(b<c)" in conds
+            elif r == ("1.0", "1.0"):
+                good = "(a>d)" in conds
+            elif r == ("0.0", "0.0"):
+                # all four bounds forced equal by the (positive) conditions on this path
+                parent = {x: x for x in "abcd"}
+
+                def find(x):
+                    while parent[x] != x:
+                        x = parent[x]
+                    return x
+
+                for c in conds:
+                    if c.startswith("!"):
+                        continue
+                    for m in re.finditer(r"\(([abcd])==([abcd])\)", c):
+                        if "||" not in c:
+                            parent[find(m.group(1))] = find(m.group(2))
+                good = len({find(x) for x in "abcd"}) == 1
+            else:
+                good = r == ("(-1.0)", "1.0")
+            if not good:
+                ok = False
+                rule.bad("wgsl|op_compare", "op_compare returns %s under %s; -1 needs lhs.hi < rhs.lo, +1 needs lhs.lo > rhs.hi, exactly 0 needs two equal single values (two equal *intervals* still compare every way), anything else is [-1, 1]" % (r, conds), _where(fn))
+        if ok and ps:
+            rule.ok("WGSL op_compare: -1 / +1 under strict separation, 0 for equal single values, else [-1, 1]", file=IOPS, line=fn["ln"])
+    # mod: the bound of the general case covers both ends of the divisor
+    ps, fn = _paths(rule, d, "op_mod")
+    if ps is not None:
+        ok = True
+        const_div = "((c==d)&&(c>0.0))"
+        for conds, r, _p in ps:
+            if r == W.NAN:
+                continue
+            if r == ("0.0", "max(abs(c),abs(d))"):
+                good = True
+            elif r in (("0.0", "abs(c)"), ("0.0", "abs(d)"), ("0.0", "c"), ("0.0", "d")):
+                good = const_div in conds
+            elif r == ("rem_euclid(a,c)", "rem_euclid(b,c)"):
+                good = const_div in conds and any("floor((a/c))==floor((b/c))" in c and not c.startswith("!") for c in conds)
+            else:
+                good = False
+            if not good:
+                ok = False
+                rule.bad("wgsl|op_mod", "op_mod returns %s under %s; with a divisor that is not one positive constant the result is only known to lie in [0, max(|lo|, |hi|)] of the divisor" % (r, conds), _where(fn))
+        if ok and ps:
+            rule.ok("WGSL op_mod: [0, max|divisor|] in general, the two remainders only within one period of a constant positive divisor", file=IOPS, line=fn["ln"])
+
     # constant enclosures
     for name in ("op_sin", "op_cos"):
         ps, fn = _paths(rule, d, name)
@@ -362,3 +418,39 @@ def r_decoder(rule, root=None):
         rule.ok("decoder: Output reads the register in byte 1", file=TAPE, line=o["ln"])
     else:
         rule.bad("decoder|output", "the OP_OUTPUT case must read the register named by byte 1", where)
+    # cases that produce no value must not reach the shared `reg[out] = tmp` after the switch
+    def leaves(block):
+        st = block["stmts"]
+        if not st:
+            return [None]
+        last = st[-1]["e"] if st[-1].get("k") == "ExprStmt" else st[-1]
+        if last.get("k") == "If":
+            out_ = leaves(last["then"])
+            el = last.get("else")
+            if el is None:
+                out_.append(None)
+            elif el.get("k") == "If":
+                out_ += leaves({"stmts": [{"k": "ExprStmt", "e": el}]})
+            else:
+                out_ += leaves(el)
+            return out_
+        return [last.get("k")]
+
+    for key in ("OP_OUTPUT", "OP_JUMP", "OP_MEM"):
+        c = cases.get(key)
+        if c is None:
+            continue
+        ends = leaves(c["body"])
+        if all(k_ in ("Continue", "Return", "Break") for k_ in ends):
+            rule.ok("decoder: %s never falls through to the register write" % key, file=TAPE, line=c["ln"])
+        else:
+            rule.bad("decoder|fallthrough|%s" % key, "the %s case can fall out of the switch, where `reg[byte 1] = tmp` overwrites a register with a value this op never computed (an Output only reads its register)" % key, "%s:%d" % (TAPE, c["ln"]))
+    # Input: axes by their slot, anything else from the variable buffer at the slot the immediate names
+    ci = cases.get("OP_INPUT")
+    it = A.unparse(ci["body"]).replace(" ", "") if ci else ""
+    immv = next((n for n, t_ in lets.items() if t_ == "%s.imm" % wv), None)
+    good_in = bool(ci and immv) and all(re.search(r"\(?%s==config\.axes\.%s\)?\{tmp=xyz\[%du?\];?\}" % (immv, ax, k_), it) for k_, ax in enumerate("xyz")) and "tmp=build_imm(var_values[%s])" % immv in it
+    if good_in:
+        rule.ok("decoder: Input takes x / y / z by their own slot and any other variable from var_values[slot]", file=TAPE, line=ci["ln"])
+    else:
+        rule.bad("decoder|input", "the OP_INPUT case must map the slot in the immediate word to xyz[0..2] for the three axes and to var_values[slot] (the same slot, unshifted) otherwise", where)
